@@ -122,6 +122,9 @@ func DriveFrames(cfg byte, data []byte, checkAlloc bool) (sig, what string, nont
 	if cfg&0x20 != 0 && mode == 3 {
 		c.SetReadLimit(1 << 16)
 	}
+	if cfg&0x20 != 0 && mode == 0 {
+		c.SetReadLimit(64 << 20) // a generous limit is a bound, not a size to allocate
+	}
 	if len(data)%4 == 1 {
 		// documented: a nil handler selects the default one
 		c.SetPongHandler(nil)
